@@ -66,7 +66,9 @@ class landuse(PseudoNetCDFFile):
 
         self.createDimension('ROW', rows)
         self.createDimension('COL', cols)
-        first_line, =  self._rffile.read('8s')
+        # old style files start with float data: not necessarily utf-8
+        self._rffile.infile.seek(4, 0)
+        first_line = self._rffile.infile.read(8).decode('latin1')
         if first_line == 'LUCAT11 ':
             self.createDimension('LANDUSE', 11)
             self._newstyle = True
